@@ -290,7 +290,11 @@ def Content.head : Content → String
 
 def PeerHdr.tags (h : PeerHdr) : List String :=
   [if h.addr.isV6 then "peer-v6" else "peer-v4"] ++ (if h.ptype = 3 then ["loc-rib"] else []) ++
-    [s!"flags-{h.flags}"]
+    [s!"flags-{h.flags}"] ++
+    (if h.asn = 0 then ["asn-0"] else if h.asn = 65535 then ["asn-65535"] else if h.asn = 65536 then ["asn-65536"]
+     else if h.asn = 4294967295 then ["asn-max"] else []) ++
+    (if h.dist = 18446744073709551615 then ["dist-max"] else []) ++
+    (if h.ts = 4294967295 then ["ts-max"] else [])
 
 def lenClass (n : Nat) (z f m : String) : String :=
   if n = 0 then z else if n ≤ 3 then f else m
@@ -315,7 +319,11 @@ def Rec.tags : Rec → List String
          | .remoteNotif emb _ => embTags emb ++ ["reason-3"]
          | .remoteUnexpected => ["reason-4"]
          | .deconfigured => ["reason-5"])
-  | .bmpInit tlvs => ["bmp-init", s!"tlvs-{min tlvs.length 3}"]
+  | .bmpInit tlvs =>
+      ["bmp-init", s!"tlvs-{min tlvs.length 3}"] ++
+        tlvs.flatMap (fun t =>
+          if t.2.length = 0 then ["tlv-0"] else if t.2.length = 255 then ["tlv-255"] else if t.2.length = 256 then ["tlv-256"]
+          else if t.2.length = 65535 then ["tlv-65535"] else if t.2.length > 65535 then ["tlv-over"] else [])
   | .bmpStats => ["bmp-stats"]
   | .bmpTerm => ["bmp-term"]
   | .bmpMirror => ["bmp-mirror"]
@@ -325,10 +333,18 @@ def Rec.tags : Rec → List String
         (if h.asn4 then [] else ["asn2"]) ++ [if ap then "ap-on" else "ap-off", mon.head] ++ embTags emb
   | .tdPeers _ _ peers =>
       ["td-peers"] ++ peers.map (fun p => if p.addr.isV6 then "peer-v6" else "peer-v4") ++
-        [lenClass peers.length "peers-0" "peers-few" "peers-many"]
-  | .tdRib v6 _ _ _ _ ents =>
-      ["td-rib"] ++ ents.map (RibEnt.tag v6) ++ [if v6 then "rib6" else "rib4"] ++
-        [lenClass ents.length "ents-0" "ents-few" "ents-many"]
+        [lenClass peers.length "peers-0" "peers-few" "peers-many"] ++
+        (if peers.length ≥ 65535 then ["peers-65535+"] else [])
+  | .tdRib v6 _ _ mask addr ents =>
+      ["td-rib"] ++
+        ents.flatMap (fun e => [RibEnt.tag v6 e] ++ e.attrs.flatMap (fun a =>
+          match a.kind with
+          | .val => []
+          | _ => if a.data.length = 255 then ["adata-255"] else if a.data.length = 256 then ["adata-256"] else [])) ++
+        [if mask = 0 then "mask-0" else if mask > addr.length * 8 then "mask-over"
+         else if mask = addr.length * 8 then "mask-full" else if mask % 8 ≠ 0 then "mask-part" else "mask-octet"] ++
+        (if ents.length ≥ 65535 then ["ents-65535+"] else []) ++
+        [if v6 then "rib6" else "rib4"] ++ [lenClass ents.length "ents-0" "ents-few" "ents-many"]
 
 /-- Observation of a case. -/
 inductive Obs where
